@@ -143,6 +143,28 @@ func C03(p *Prog, r *Run) {
 		r.Floor("add-node gene obligations shared with C05.1", n, 2)
 	})
 
+	r.Rule("C03.8", "crossover keeps what a number denotes: the gene an averaging crossover builds for a matched pair carries the pair's innovation number and, for each of in node, out node and recurrence flag, the same field of one of the two matched parent genes - refreshed for every pair, so that nothing of an earlier pair (or the scratch gene's constructor value) is left in it (obligations shared with C04.3)", func() {
+		sub := NewRun(p, "C04", r.Tier)
+		C04(p, sub)
+		n := 0
+		for _, o := range sub.Obs {
+			if o.Rule != "C04.3" {
+				continue
+			}
+			keep := strings.HasSuffix(o.Construct, ".avg.complete") || strings.HasSuffix(o.Construct, ".avg.paths")
+			for _, f := range []string{".avg.InnovationNum", ".avg.Link.InNode", ".avg.Link.OutNode", ".avg.Link.IsRecurrent"} {
+				if strings.HasSuffix(o.Construct, f) || strings.Contains(o.Construct, f+"#") {
+					keep = true
+				}
+			}
+			if keep {
+				r.add(o.Status, "C04.3:"+o.Construct, o.Pos, o.Detail, o.Path)
+				n++
+			}
+		}
+		r.Floor("averaged-gene obligations shared with C04.3", n, 4)
+	})
+
 	r.Rule("C03.5", "the innovation records are forgotten on every non-error path of NextEpoch, for both executors", func() {
 		r.c03Reset()
 	})
